@@ -51,6 +51,15 @@ func (x *fnExec) call(fr *frame, st *State, ci ssa.CallInstruction, res ssa.Valu
 		return
 	case *ssa.Function:
 		x.staticCall(fr, st, ci, res, f, args, fresh)
+		if res != nil && fr.depth == 0 {
+			// ghost: the result of the most recent call of each callee, for assertions about what the code did with it
+			if x.lastRes == nil {
+				x.lastRes = map[string]Val{}
+			}
+			if v, ok := fr.env[res]; ok {
+				x.lastRes[x.callKey(ci)] = v
+			}
+		}
 		return
 	case *ssa.MakeClosure:
 		if fn, ok := f.Fn.(*ssa.Function); ok {
